@@ -590,7 +590,7 @@ func (ex *Exec) scanEffects(n ast.Node, vars map[types.Object]bool, eff *effects
 			if _, isBlock := stmt.(*ast.BlockStmt); !isBlock {
 				text := normalizeStmtText(nodeString(ex.fset, stmt))
 				for _, g := range ex.fc.GhostUpd {
-					if strings.HasPrefix(text, normalizeStmtText(g.Anchor)) {
+					if strings.HasPrefix(text, normalizeStmtText(g.Anchor)) && (g.Nth == 0 || ex.nthMatch(g.Anchor, g.Nth) == stmt.Pos()) {
 						eff.ghost[g.Name] = true
 					}
 				}
